@@ -1,3 +1,342 @@
-(* C19 property theorems (placeholder while the proofs are being written) *)
-From Tetl Require Import Lib.Base C19.Model C19.Spec.
+(* C19 -- Multidimensional and contiguous views address exactly the elements they span.
+   Property theorems only: each is closed by [exact] of a lemma proved in Proofs*.v, followed by
+   Print Assumptions.  All statements quantify over EVERY rank (lists), EVERY static/dynamic pattern
+   ([pattern = list (option Z)]), EVERY extent value and EVERY index type of 1..64 bits, signed or
+   unsigned ([wf_ity t]); the only arithmetic hypothesis is the standard's: the size of the index
+   space ([product] of the extents, resp. REQUIRED-SPAN-SIZE for layout_stride) is representable in
+   the index type.  Model functions (Model.v) on the left, closed forms (Spec.v) on the right. *)
+From Tetl Require Import Lib.Base C19.Model C19.Spec C19.ProofsArith C19.ProofsExt C19.ProofsSpec
+  C19.ProofsLayout C19.ProofsMore C19.ProofsSpan C19.ProofsEnum C19.ProofsTop.
+From Coq Require Import Permutation.
 Local Open Scope Z_scope.
+
+(** * extents *)
+
+(* _dynamic_index(i) counts the dynamic extents before position i, and the three `if constexpr`
+   branches of extent(i) compute one and the same function *)
+Theorem C19_dynamic_index : forall p i, dynamic_index p i = rank_dynamic (firstn i p).
+Proof. exact dynamic_index_firstn. Qed.
+Print Assumptions C19_dynamic_index.
+
+Theorem C19_extent_branches : forall t e i, (i < rank e)%nat ->
+  extent t e i = match static_extent (pat e) i with
+                 | Some n => cast t n
+                 | None => nth (dynamic_index (pat e) i) (dyn e) 0
+                 end.
+Proof. exact extent_general. Qed.
+Print Assumptions C19_extent_branches.
+
+(* all-extents constructors (N == rank): for EVERY pattern, extent(i) afterwards returns the value
+   passed for dimension i (converted to the index type); static dimensions keep their static extent *)
+Theorem C19_extents_ctor_all : forall t p vals, wf_ity t -> length vals = length p ->
+  extents_list t (ext_from_pack t p vals) = map (cast t) (extents_all p vals)
+  /\ extents_list t (ext_from_span t p vals) = map (cast t) (extents_all p vals).
+Proof. intros t p vals Hwf Hl. split; [exact (ext_from_pack_all t p vals Hwf Hl) | exact (ext_from_span_all t p vals Hl)]. Qed.
+Print Assumptions C19_extents_ctor_all.
+
+(* dynamic-extents constructors (N == rank_dynamic) *)
+Theorem C19_extents_ctor_dyn : forall t p vals, wf_ity t -> length vals = rank_dynamic p ->
+  extents_list t (ext_from_pack t p vals) = map (cast t) (extents_dyn p vals)
+  /\ extents_list t (ext_from_span t p vals) = map (cast t) (extents_dyn p vals).
+Proof. intros t p vals Hwf Hl. split; [exact (ext_from_pack_dyn t p vals Hwf Hl) | exact (ext_from_span_dyn t p vals Hl)]. Qed.
+Print Assumptions C19_extents_ctor_dyn.
+
+(* under the preconditions of [mdspan.extents.cons] (values representable, equal to the static
+   extents where those exist) the object's extents are exactly the values passed *)
+Theorem C19_extents_ctor_std : forall t p vals, wf_ity t -> agrees p vals -> Forall (representable t) vals ->
+  extents_list t (ext_from_pack t p vals) = vals /\ extents_list t (ext_from_span t p vals) = vals.
+Proof. exact ctor_all_std. Qed.
+Print Assumptions C19_extents_ctor_std.
+
+Theorem C19_extents_ctor_dyn_std : forall t p vals, wf_ity t -> length vals = rank_dynamic p ->
+  Forall (representable t) (extents_dyn p vals) ->
+  extents_list t (ext_from_pack t p vals) = extents_dyn p vals
+  /\ extents_list t (ext_from_span t p vals) = extents_dyn p vals.
+Proof. exact ctor_dyn_std. Qed.
+Print Assumptions C19_extents_ctor_dyn_std.
+
+Theorem C19_extents_default : forall t p, wf_ity t ->
+  extents_list t (ext_default p) = map (cast t) (extents_dyn p []).
+Proof. exact ext_default_list. Qed.
+Print Assumptions C19_extents_default.
+
+(* converting constructor, any source/destination patterns and index types *)
+Theorem C19_extents_convert : forall t p t' e', rank e' = length p ->
+  extents_list t (ext_convert t p t' e') = map (cast t) (extents_all p (extents_list t' e')).
+Proof. exact ext_convert_list. Qed.
+Print Assumptions C19_extents_convert.
+
+Theorem C19_extents_convert_std : forall t p t' e', wf_ity t -> rank e' = length p ->
+  agrees p (extents_list t' e') -> Forall (representable t) (extents_list t' e') ->
+  extents_list t (ext_convert t p t' e') = extents_list t' e'.
+Proof. exact ctor_convert_std. Qed.
+Print Assumptions C19_extents_convert_std.
+
+(* every constructor leaves exactly rank_dynamic values of the index type in the dynamic array *)
+Theorem C19_extents_wf : forall t p vals t' e', wf_ity t ->
+  wf_ext t (ext_default p)
+  /\ (length vals = rank_dynamic p \/ length vals = length p -> wf_ext t (ext_from_span t p vals))
+  /\ wf_ext t (ext_convert t p t' e').
+Proof.
+  intros t p vals t' e' Hwf.
+  exact (conj (ext_default_wf t p Hwf) (conj (ext_from_span_wf t p vals Hwf) (ext_convert_wf t p t' e' Hwf))).
+Qed.
+Print Assumptions C19_extents_wf.
+
+(* fwd_prod_of_extents / rev_prod_of_extents: the product of the leading / trailing extents mod 2^64 *)
+Theorem C19_products : forall t e i,
+  ((i <= rank e)%nat -> fwd_prod t e i = szw (product (firstn i (extents_list t e))))
+  /\ ((i < rank e)%nat -> rev_prod t e i = szw (product (skipn (S i) (extents_list t e)))).
+Proof. intros t e i. exact (conj (fwd_prod_spec t e i) (rev_prod_spec t e i)). Qed.
+Print Assumptions C19_products.
+
+(** * layout_left / layout_right *)
+
+(* operator() equals the column-/row-major Horner formula; no wrap-around of the index type and no
+   signed overflow in the promoted arithmetic ([Some]) *)
+Theorem C19_layout_formula : forall l t e idx, wf_ity t ->
+  in_range idx (extents_list t e) -> product (extents_list t e) <= imax t ->
+  lay_map l t e idx = Some (match l with
+                            | LLeft => col_major (extents_list t e) idx
+                            | LRight => row_major (extents_list t e) idx
+                            end).
+Proof. exact lay_map_formula. Qed.
+Print Assumptions C19_layout_formula.
+
+Theorem C19_layout_in_bounds : forall l t e idx, wf_ity t ->
+  in_range idx (extents_list t e) -> product (extents_list t e) <= imax t ->
+  exists o, lay_map l t e idx = Some o /\ 0 <= o < lay_required l t e.
+Proof. exact lay_map_in_bounds. Qed.
+Print Assumptions C19_layout_in_bounds.
+
+Theorem C19_layout_injective : forall l t e idx idx', wf_ity t ->
+  in_range idx (extents_list t e) -> in_range idx' (extents_list t e) ->
+  product (extents_list t e) <= imax t ->
+  lay_map l t e idx = lay_map l t e idx' -> idx = idx'.
+Proof. exact lay_map_injective. Qed.
+Print Assumptions C19_layout_injective.
+
+Theorem C19_required_span_size : forall l t e, wf_ity t ->
+  0 <= product (extents_list t e) <= imax t -> lay_required l t e = product (extents_list t e).
+Proof. exact lay_required_spec. Qed.
+Print Assumptions C19_required_span_size.
+
+(* stride(r) is the product of the leading (left) / trailing (right) extents, the mapping is the sum
+   of index * stride, and stride(r) fires its precondition exactly for r >= rank *)
+Theorem C19_layout_strides : forall l t e idx, wf_ity t ->
+  in_range idx (extents_list t e) -> product (extents_list t e) <= imax t ->
+  lay_map l t e idx = Some (dot idx (lay_strides l t e))
+  /\ forall r, (r < rank e)%nat ->
+       lay_stride l t e r = Ok (match l with
+                                | LLeft => stride_left (extents_list t e) r
+                                | LRight => stride_right (extents_list t e) r
+                                end).
+Proof.
+  intros l t e idx Hwf Hin Hp. split; [exact (lay_map_strides l t e idx Hwf Hin Hp)|].
+  intros r Hr. exact (lay_stride_spec l t e r Hwf Hr (in_range_pos _ _ Hin) Hp).
+Qed.
+Print Assumptions C19_layout_strides.
+
+Theorem C19_stride_contract : forall l t e r, lay_stride l t e r = Contract <-> (rank e <= r)%nat.
+Proof. exact lay_stride_contract. Qed.
+Print Assumptions C19_stride_contract.
+
+(* exactly the elements spanned: layout_right sends the multi-indices, in index order, to
+   0, 1, ..., size-1; layout_left sends them to a permutation of the same offsets *)
+Theorem C19_layout_right_enumerates : forall t e, wf_ity t ->
+  Forall (fun x => 0 <= x) (extents_list t e) -> product (extents_list t e) <= imax t ->
+  map (lay_map LRight t e) (all_indices (extents_list t e))
+  = map Some (zrange_from 0 (Z.to_nat (product (extents_list t e)))).
+Proof. exact lay_right_enumerates. Qed.
+Print Assumptions C19_layout_right_enumerates.
+
+Theorem C19_layout_left_permutes : forall t e, wf_ity t ->
+  Forall (fun x => 0 <= x) (extents_list t e) -> product (extents_list t e) <= imax t ->
+  Permutation (map (lay_map LLeft t e) (all_indices (extents_list t e)))
+              (map Some (zrange_from 0 (Z.to_nat (product (extents_list t e))))).
+Proof. exact lay_left_permutes. Qed.
+Print Assumptions C19_layout_left_permutes.
+
+Theorem C19_all_indices_complete : forall xs idx, In idx (all_indices xs) <-> in_range idx xs.
+Proof. exact all_indices_complete. Qed.
+Print Assumptions C19_all_indices_complete.
+
+(** * layout_stride *)
+Theorem C19_layout_stride_formula : forall t e ss idx, wf_ity t -> wf_ext t e ->
+  in_range idx (extents_list t e) -> length ss = rank e ->
+  Forall (fun s => 0 <= s <= imax t) ss -> span_max (extents_list t e) ss <= imax t ->
+  strided_map t (strided_ctor t e ss) idx = Some (dot idx ss).
+Proof. exact strided_map_formula. Qed.
+Print Assumptions C19_layout_stride_formula.
+
+Theorem C19_layout_stride_in_bounds : forall t e ss idx, wf_ity t -> wf_ext t e ->
+  in_range idx (extents_list t e) -> length ss = rank e ->
+  Forall (fun s => 0 <= s <= imax t) ss -> span_max (extents_list t e) ss <= imax t ->
+  exists o, strided_map t (strided_ctor t e ss) idx = Some o
+            /\ 0 <= o < stride_required (extents_list t e) ss.
+Proof. exact strided_map_in_bounds. Qed.
+Print Assumptions C19_layout_stride_in_bounds.
+
+(* injective under the uniqueness precondition of [mdspan.layout.stride.cons]: positive strides and
+   a permutation of the dimensions along which stride >= previous stride * previous extent *)
+Theorem C19_layout_stride_injective : forall t e ss idx idx', wf_ity t -> wf_ext t e ->
+  in_range idx (extents_list t e) -> in_range idx' (extents_list t e) ->
+  unique_strides (extents_list t e) ss ->
+  Forall (fun s => s <= imax t) ss -> span_max (extents_list t e) ss <= imax t ->
+  strided_map t (strided_ctor t e ss) idx = strided_map t (strided_ctor t e ss) idx' -> idx = idx'.
+Proof. exact strided_map_injective. Qed.
+Print Assumptions C19_layout_stride_injective.
+
+(** * layout_transpose *)
+Theorem C19_transpose_formula : forall l t ne i j, wf_ity t -> rank ne = 2%nat ->
+  in_range [i; j] (rev (extents_list t ne)) -> product (extents_list t ne) <= imax t ->
+  tr_map l t ne i j = Some (spec_offset (flip l) (rev (extents_list t ne)) [i; j])
+  /\ 0 <= spec_offset (flip l) (rev (extents_list t ne)) [i; j] < tr_required l t ne.
+Proof. exact tr_map_formula. Qed.
+Print Assumptions C19_transpose_formula.
+
+Theorem C19_transpose_extents : forall t ne, wf_ity t -> wf_ext t ne -> rank ne = 2%nat ->
+  extents_list t (tr_extents t ne) = rev (extents_list t ne).
+Proof. exact tr_extents_spec. Qed.
+Print Assumptions C19_transpose_extents.
+
+Theorem C19_transpose_stride : forall l t ne, wf_ity t -> rank ne = 2%nat ->
+  Forall (fun x => 0 < x) (extents_list t ne) -> product (extents_list t ne) <= imax t ->
+  tr_stride l t ne 0 = Ok (spec_stride l (extents_list t ne) 1)
+  /\ tr_stride l t ne 1 = Ok (spec_stride l (extents_list t ne) 0)
+  /\ forall r, (2 <= r)%nat -> tr_stride l t ne r = Contract.
+Proof. exact tr_stride_spec. Qed.
+Print Assumptions C19_transpose_stride.
+
+(** * mdspan / mdarray element access, conversions, submdspan_extents *)
+(* the element referenced is data[closed form], inside [0, size()); an mdarray's container has
+   exactly size() elements *)
+Theorem C19_mdspan_access : forall l t e idx, wf_ity t -> wf_ext t e ->
+  in_range idx (extents_list t e) -> product (extents_list t e) <= imax t ->
+  mds_offset l t e idx = Some (spec_offset l (extents_list t e) idx)
+  /\ 0 <= spec_offset l (extents_list t e) idx < mds_size t e
+  /\ mds_size t e = product (extents_list t e)
+  /\ mda_container_size l t e = product (extents_list t e).
+Proof. exact mds_offset_formula. Qed.
+Print Assumptions C19_mdspan_access.
+
+Theorem C19_mapping_conversion : forall l t1 e1 t2 e2 idx, wf_ity t1 -> wf_ity t2 ->
+  extents_list t2 e2 = extents_list t1 e1 -> in_range idx (extents_list t1 e1) ->
+  product (extents_list t1 e1) <= imax t1 -> product (extents_list t1 e1) <= imax t2 ->
+  lay_map l t2 e2 idx = lay_map l t1 e1 idx.
+Proof. exact lay_map_extents_only. Qed.
+Print Assumptions C19_mapping_conversion.
+
+Theorem C19_left_right_rank1 : forall xs idx, (length xs <= 1)%nat -> length idx = length xs ->
+  col_major xs idx = row_major xs idx.
+Proof. exact left_right_rank1. Qed.
+Print Assumptions C19_left_right_rank1.
+
+Theorem C19_submdspan_extents : forall t e sl, wf_ity t -> wf_ext t e ->
+  extents_list t (sub_extents t e sl) = keep_full sl (extents_list t e)
+  /\ pat (sub_extents t e sl) = keep_full sl (pat e).
+Proof. exact sub_extents_spec. Qed.
+Print Assumptions C19_submdspan_extents.
+
+(** * span *)
+(* subspan(offset, count): offset + count <= size -> exactly those elements of the parent, inside it *)
+Theorem C19_span_subspan : forall (A : Type) (buf : list A) s o c, sp_valid buf s -> 0 <= o -> 0 <= c ->
+  o + c <= s_size s ->
+  exists r, sp_sub_d s o (Some c) = Ok r /\ sp_elems buf r = sub_range (sp_elems buf s) o c
+            /\ s_size r = c /\ s_ext r = None /\ sp_within r s /\ sp_valid buf r.
+Proof. exact sp_sub_d_count. Qed.
+Print Assumptions C19_span_subspan.
+
+Theorem C19_span_subspan_rest : forall (A : Type) (buf : list A) s o, sp_valid buf s -> 0 <= o <= s_size s ->
+  exists r, sp_sub_d s o None = Ok r
+            /\ sp_elems buf r = sub_range (sp_elems buf s) o (s_size s - o)
+            /\ s_size r = s_size s - o /\ s_ext r = None /\ sp_within r s /\ sp_valid buf r.
+Proof. exact sp_sub_d_rest. Qed.
+Print Assumptions C19_span_subspan_rest.
+
+Theorem C19_span_subspan_contract : forall s o c, 0 <= s_size s < 18446744073709551616 -> 0 <= o ->
+  (sp_sub_d s o c = Contract <->
+   ~ (o <= s_size s /\ match c with Some n => n <= s_size s - o | None => True end)).
+Proof. exact sp_sub_d_contract. Qed.
+Print Assumptions C19_span_subspan_contract.
+
+Theorem C19_span_first : forall (A : Type) (buf : list A) s c, sp_valid buf s -> 0 <= c ->
+  (c <= s_size s ->
+   exists r, sp_first_d s c = Ok r /\ sp_elems buf r = sub_range (sp_elems buf s) 0 c
+             /\ s_size r = c /\ sp_within r s)
+  /\ (s_size s < c -> sp_first_d s c = Contract).
+Proof. exact sp_first_d_spec. Qed.
+Print Assumptions C19_span_first.
+
+Theorem C19_span_last : forall (A : Type) (buf : list A) s c, sp_valid buf s -> 0 <= c ->
+  (c <= s_size s ->
+   exists r, sp_last_d s c = Ok r /\ sp_elems buf r = sub_range (sp_elems buf s) (s_size s - c) c
+             /\ s_size r = c /\ sp_within r s)
+  /\ (s_size s < c -> sp_last_d s c = Contract).
+Proof. exact sp_last_d_spec. Qed.
+Print Assumptions C19_span_last.
+
+(* compile-time forms first<C>() / last<C>() / subspan<O, C>() incl. the static extent of the result *)
+Theorem C19_span_first_static : forall (A : Type) (buf : list A) s c, sp_valid buf s -> 0 <= c <= s_size s ->
+  sp_elems buf (sp_first_s s c) = sub_range (sp_elems buf s) 0 c
+  /\ s_size (sp_first_s s c) = c /\ s_ext (sp_first_s s c) = Some c /\ sp_within (sp_first_s s c) s.
+Proof. exact sp_first_s_spec. Qed.
+Print Assumptions C19_span_first_static.
+
+Theorem C19_span_last_static : forall (A : Type) (buf : list A) s c, sp_valid buf s -> 0 <= c <= s_size s ->
+  sp_elems buf (sp_last_s s c) = sub_range (sp_elems buf s) (s_size s - c) c
+  /\ s_size (sp_last_s s c) = c /\ s_ext (sp_last_s s c) = Some c /\ sp_within (sp_last_s s c) s.
+Proof. exact sp_last_s_spec. Qed.
+Print Assumptions C19_span_last_static.
+
+Theorem C19_span_subspan_static : forall (A : Type) (buf : list A) s o c,
+  sp_valid buf s -> sp_consistent s -> 0 <= o <= s_size s ->
+  match c with Some n => 0 <= n <= s_size s - o | None => True end ->
+  let cnt := match c with Some n => n | None => s_size s - o end in
+  let r := sp_sub_s s o c in
+  sp_elems buf r = sub_range (sp_elems buf s) o cnt /\ s_size r = cnt /\ sp_within r s
+  /\ s_ext r = match c with
+               | Some n => Some n
+               | None => match s_ext s with Some x => Some (x - o) | None => None end
+               end
+  /\ sp_consistent r.
+Proof. exact sp_sub_s_spec. Qed.
+Print Assumptions C19_span_subspan_static.
+
+Theorem C19_span_index : forall s i, 0 <= i ->
+  (i < s_size s -> sp_index s i = Ok (s_off s + i)) /\ (s_size s <= i -> sp_index s i = Contract).
+Proof. exact sp_index_spec. Qed.
+Print Assumptions C19_span_index.
+
+(** * the representability hypothesis is necessary *)
+Theorem C19_narrow_index_wraps :
+  let e := ext_from_pack i8 [None; None] [16; 16] in
+  extents_list i8 e = [16; 16] /\ in_range [8; 0] (extents_list i8 e)
+  /\ lay_map LRight i8 e [8; 0] = Some (-128) /\ lay_required LRight i8 e = 0.
+Proof. exact narrow_index_wraps. Qed.
+Print Assumptions C19_narrow_index_wraps.
+
+Theorem C19_int_index_overflows :
+  let e := ext_from_pack i32 [None; None] [65536; 65536] in
+  in_range [32768; 0] (extents_list i32 e) /\ lay_map LRight i32 e [32768; 0] = None.
+Proof. exact int_index_overflows. Qed.
+Print Assumptions C19_int_index_overflows.
+
+(* non-vacuity: the hypotheses are met by ordinary shapes, incl. a mixed pattern with a zero-free
+   index space, a strided padded/permuted layout and a span request *)
+Example C19_nonvacuous :
+  let e := ext_from_pack i32 [Some 2; None; Some 4] [2; 3; 4] in
+  wf_ity i32 /\ wf_ity u64 /\ wf_ity i8
+  /\ extents_list i32 e = [2; 3; 4] /\ in_range [1; 2; 3] (extents_list i32 e)
+  /\ product (extents_list i32 e) <= imax i32
+  /\ lay_map LRight i32 e [1; 2; 3] = Some 23 /\ lay_map LLeft i32 e [1; 2; 3] = Some 23
+  /\ lay_map LLeft i32 e [1; 0; 0] = Some 1 /\ lay_map LRight i32 e [1; 0; 0] = Some 12
+  /\ unique_strides [2; 3] [4; 1]
+  /\ strided_map i32 (strided_ctor i32 (ext_from_pack i32 [None; None] [2; 3]) [4; 1]) [1; 2] = Some 6
+  /\ sp_valid [10; 11; 12; 13; 14] (mk_span None 1 4)
+  /\ sp_sub_d (mk_span None 1 4) 1 (Some 2) = Ok (mk_span None 2 2)
+  /\ sp_elems [10; 11; 12; 13; 14] (mk_span None 2 2) = [12; 13].
+Proof.
+  cbv zeta. repeat split; try (vm_compute; intuition congruence); try (repeat constructor; vm_compute; congruence).
+  - exists [(2, 4); (3, 1)]. split; [apply Permutation_refl | cbn; lia].
+Qed.
